@@ -41,6 +41,9 @@ else:
     assert place and run, ("cannot find placement/run command", place, run)
 print("place:", place, "\nrun:", run, "in", rundir)
 sh("git checkout -- . && git clean -fdq", cwd=wt)
+# bring the scratch worktree to /repo's current HEAD (later fix: commits), so that only the seeded change differs
+head = subprocess.run(["git", "-C", "/repo", "rev-parse", "HEAD"], capture_output=True, text=True).stdout.strip()
+sh("git checkout -q --detach %s" % head, cwd=wt)
 if place:
     os.makedirs(os.path.dirname(place), exist_ok=True)
     shutil.copy(os.path.join(demo, demofile[0]), place)
@@ -64,7 +67,8 @@ evd = "/tmp/seed-ev-" + sid
 leand = "/tmp/seed-lean-" + sid       # private copy of the Lean project: regenerated Gp/Gen must not disturb checks of /repo
 sh("rsync -a --delete %s/lean/ %s/" % (ROOT, leand))
 for pid in props:
-    e2 = dict(os.environ, VERIF_REPO=wt, VERIF_EVIDENCE_DIR=evd, VERIF_WORK_TAG=".seed-" + sid, VERIF_LEAN_DIR=leand)
+    # quick tier exactly as registered (the fingerprint-triggered widening is switched off: it would only help)
+    e2 = dict(os.environ, VERIF_REPO=wt, VERIF_EVIDENCE_DIR=evd, VERIF_WORK_TAG=".seed-" + sid, VERIF_LEAN_DIR=leand, VERIF_NO_WIDEN="1")
     t0 = time.time()
     rc, o = sh("./check %s --tier quick" % pid, cwd=ROOT, e=e2, timeout=7200)
     viol = [l for l in o.splitlines() if l.startswith("VIOLATION")]
@@ -83,7 +87,7 @@ for f in os.listdir(demo):
 caught = [p for p, r in results.items() if r["rc"] == 1 and r["violations"]]
 meta = {"property": ",".join(props), "needs": "", "what": "", "demo_place": place.replace(wt, "<worktree>") if place else "separate module (go.mod replaces gopacket with the worktree)", "demo_run": run,
         "confirmed": {"pristine_demo_passes": True, "mutant_builds": True, "mutant_demo_fails": True, "pinned_suite_passes_with_mutant": True},
-        "ran": ["tools/seedtest.py %s" % " ".join(a)], "checks": results,
+        "ran": ["tools/seedtest.py %s" % " ".join(a)], "checks": results, "repo_head": head, "tier": "quick, no widening",
         "caught_by": ", ".join("%s: %s" % (p, re.sub(r".*sig=(\S+).*", r"\1", results[p]["violations"][0])) for p in caught) or "NOT CAUGHT"}
 mt = os.path.join(demo, "meta.txt")
 if os.path.exists(mt):
